@@ -27,6 +27,15 @@ type state struct {
 	// until we can be sure no reads are still in progress on them.
 	finalizer atomic.Value // func()
 
+	// next is the state that replaced this one (nil while this is the active
+	// state). A replaced state keeps a reference on its successor until its own
+	// last reader is gone: the successor's finalizer (and so on down the chain,
+	// ending with the one Close installs on the last state) may close or delete
+	// files that readers of this older state are still using. It is stored
+	// once, under the write lock, while the writer still holds its own reference
+	// to this state.
+	next atomic.Value // *state
+
 	nextSegmentID uint64
 
 	// nextBaseIndex is used to signal which baseIndex to use next if there are no
@@ -209,6 +218,12 @@ func (s *state) release() {
 		fnRaw := s.finalizer.Swap(nilFn)
 		if fn, ok := fnRaw.(func()); ok && fn != nil {
 			fn()
+		}
+		// Readers of this state are done, the states that came after it may now
+		// clean up too.
+		// (Swap so it happens once even if a late reader bumps us to 1 and back.)
+		if next, ok := s.next.Swap((*state)(nil)).(*state); ok && next != nil {
+			next.release()
 		}
 	}
 }
